@@ -8,6 +8,7 @@ import (
 	"strconv"
 	"strings"
 	"sync"
+	"sync/atomic"
 	"time"
 
 	"github.com/google/uuid"
@@ -129,6 +130,45 @@ func (f *c04fixture) unknownTree(root bool, k int, r *rand.Rand) c04tree {
 	t, nodes := fix.BuildTree(ro, parent, member)
 	return c04tree{t, nodes[1], 1}
 }
+
+// siblingTrees builds, over a roster nobody has seen (the last child is an identity that exists as a key only, so that
+// the ids are new in this process), the shape of tree(root, k) and a chain over the same servers in the same depth-first
+// order. Neither is registered anywhere.
+func (f *c04fixture) siblingTrees(root bool, k int) (c04tree, *onet.Tree) {
+	sis := append([]*network.ServerIdentity{}, f.cl.Roster.List[:k+1]...)
+	kp := key.NewKeyPair(fix.Suite)
+	sis = append(sis, network.NewServerIdentity(kp.Public, network.NewLocalAddress(fmt.Sprintf("sibling%d:2000", atomic.AddInt64(&c04siblings, 1)))))
+	// member order: the tree's depth-first order; for the inner shape the last child is the ghost as well
+	ro := onet.NewRoster(sis)
+	var parent, chainParent, member []int
+	n := k + 1 // nodes of the root shape
+	target := 0
+	if !root {
+		n = k + 2
+		target = 1
+	}
+	for i := 0; i < n; i++ {
+		m := i
+		if i == n-1 {
+			m = len(sis) - 1 // the ghost
+		}
+		member = append(member, m)
+		chainParent = append(chainParent, i-1)
+		switch {
+		case i == 0:
+			parent = append(parent, -1)
+		case !root && i == 1:
+			parent = append(parent, 0)
+		default:
+			parent = append(parent, target)
+		}
+	}
+	t, nodes := fix.BuildTree(ro, parent, member)
+	chain, _ := fix.BuildTree(ro, chainParent, member)
+	return c04tree{t, nodes[target], target}, chain
+}
+
+var c04siblings int64
 
 // scrambled builds the shape of tree(root, k) over the reversed roster (another tree id), node i
 // still hosted by server i, but with the advisory RosterIndex field of every node pointing at the
